@@ -50,6 +50,7 @@ type Prim interface {
 	BatchGet(c string, reqs []GetReq) *Resp
 	Transact(c string) *Resp
 	Fail(c, mode string) *Resp
+	AliasProbe(c, t, kind string, item, item2 Item) *Resp
 }
 
 // ClientIDs are the client instances every back end keeps.
